@@ -18,7 +18,8 @@ Inductive okind :=
 | KXRefStream    (* the cross-reference stream (and its dictionary = the trailer) *)
 | KEncryptDict   (* the /Encrypt dictionary (direct object in the trailer) *)
 | KTrailerID     (* the /ID array of the trailer *)
-| KMetadata.     (* the document-level XMP metadata stream of the catalog *)
+| KMetadata      (* the document-level XMP metadata stream of the catalog *)
+| KCryptIdentity. (* a stream that declares /Filter /Crypt with the Identity filter (V >= 4 documents) *)
 
 (* (strings of the object are encrypted individually, stream data is encrypted) *)
 Definition encrypts (k : okind) (plain_meta : bool) : bool * bool :=
@@ -30,6 +31,7 @@ Definition encrypts (k : okind) (plain_meta : bool) : bool * bool :=
   | KEncryptDict => (false, false)
   | KTrailerID => (false, false)
   | KMetadata => (true, negb plain_meta)
+  | KCryptIdentity => (true, false)  (* ISO 32000-1 7.6.5: its data is not encrypted, its strings are *)
   end.
 
 (* the documented exemptions of ISO 32000-1 7.6.1 / 7.5.8.2 / 7.6.3.2 (EncryptMetadata) *)
@@ -39,11 +41,12 @@ Definition exempt_stream (k : okind) (plain_meta : bool) : bool :=
   match k with
   | KXRefStream => true
   | KMetadata => plain_meta
+  | KCryptIdentity => true
   | KMember | KEncryptDict | KTrailerID => true   (* these have no stream data of their own *)
   | _ => false
   end.
 
-Definition all_kinds : list okind := [KDirect; KMember; KContainer; KXRefStream; KEncryptDict; KTrailerID; KMetadata].
+Definition all_kinds : list okind := [KDirect; KMember; KContainer; KXRefStream; KEncryptDict; KTrailerID; KMetadata; KCryptIdentity].
 
 (* ---- initialisation vectors ------------------------------------------------------------------ *)
 
@@ -125,7 +128,8 @@ Record docinfo := {
   di_meta : option oref;
   di_xref : option oref;
   di_containers : list oref;
-  di_members : list oref
+  di_members : list oref;
+  di_identity : list oref   (* streams declaring the Identity crypt filter *)
 }.
 
 Definition is_some_ref (o : option oref) (r : oref) : bool := match o with Some x => oref_eqb x r | None => false end.
@@ -136,11 +140,13 @@ Definition kind_of (di : docinfo) (r : oref) (sh : shape) : okind :=
   else if is_some_ref (di_xref di) r then KXRefStream
   else if existsb (oref_eqb r) (di_containers di) then KContainer
   else if existsb (oref_eqb r) (di_members di) then KMember
+  else if existsb (oref_eqb r) (di_identity di) then KCryptIdentity
   else KDirect.
 
 Definition ordinary (di : docinfo) (r : oref) : bool :=
   negb (is_some_ref (di_meta di) r) && negb (is_some_ref (di_xref di) r)
-  && negb (existsb (oref_eqb r) (di_containers di)) && negb (existsb (oref_eqb r) (di_members di)).
+  && negb (existsb (oref_eqb r) (di_containers di)) && negb (existsb (oref_eqb r) (di_members di))
+  && negb (existsb (oref_eqb r) (di_identity di)).
 
 (* ---- one object written and read back ------------------------------------------------------------------ *)
 
